@@ -219,6 +219,13 @@ func (cli *Client) EnrollContext(c net.Conn, ctx any) (Conn, error) {
 		return nil, e
 	}
 
+	var gc *conn
+	defer func() {
+		if gc == nil { // failed before the connection took over the duplicated fd
+			_ = unix.Close(dupFD)
+		}
+	}()
+
 	if cli.opts.SocketSendBuffer > 0 {
 		if err = socket.SetSendBuffer(dupFD, cli.opts.SocketSendBuffer); err != nil {
 			return nil, err
@@ -231,10 +238,7 @@ func (cli *Client) EnrollContext(c net.Conn, ctx any) (Conn, error) {
 	}
 
 	el := cli.eng.eventLoops.next(nil)
-	var (
-		sockAddr unix.Sockaddr
-		gc       *conn
-	)
+	var sockAddr unix.Sockaddr
 	switch c.(type) {
 	case *net.UnixConn:
 		sockAddr, _, _, err = socket.GetUnixSockAddr(c.RemoteAddr().Network(), c.RemoteAddr().String())
